@@ -730,3 +730,40 @@ Proof.
     intros k Hk. rewrite (SK k Hk). now rewrite X5.
 Qed.
 End Sim3.
+
+(* ================= Call: relabelling by a context of the same kinds ================= *)
+Lemma vrep_kind CL s sp i b b' v : bchi b' = bchi b -> bty b' = bty b -> vrep CL s sp i b v -> vrep CL s sp i b' v.
+Proof.
+  intros K T V. destruct V as [b z t A B T0 L|b tn cls a t1 t2 A B T1 T2 L1 L2 C].
+  - eapply vrep_int; eauto; congruence.
+  - eapply vrep_clo; eauto; congruence.
+Qed.
+Lemma sig_match_nth : forall (a s : ctx) i x, sig_match a s = true -> nth_error a i = Some x ->
+  exists y, nth_error s i = Some y /\ bchi x = bchi y /\ bty x = bty y.
+Proof.
+  induction a as [|x0 a IH]; intros [|y0 s] i x H Hi; cbn [sig_match] in H; try discriminate; [destruct i; discriminate|].
+  apply andb_true_iff in H as [K H]. apply kt_eqb_eq in K. destruct i as [|i]; cbn [nth_error] in *.
+  - inversion Hi; subst. eauto.
+  - eauto.
+Qed.
+Lemma bind_rel CL c e st sp (c' : ctx) e' :
+  rel CL c e st sp -> NoDup (ids c') -> sig_match c c' = true ->
+  bind (vars c') (map snd e) = Some e' -> rel CL c' e' st sp.
+Proof.
+  intros R ND SM BD. pose proof (rel_length R) as LE. destruct R as [F Al Ro Fr Ids ND0 Vals]. split; auto.
+  - unfold env_ids. rewrite <- (map_map fst idn), (bind_ids _ _ _ BD). unfold vars, ids. now rewrite map_map.
+  - intros i x v Hi. destruct (bind_nth _ _ _ _ _ _ BD Hi) as (_ & Hv).
+    rewrite nth_error_map in Hv. destruct (nth_error e i) as [[y w]|] eqn:He; [|discriminate]. cbn in Hv. inversion Hv; subst w.
+    destruct (Vals i y v He) as (b & Hb & V). destruct (sig_match_nth c c' i b SM Hb) as (b' & Hb' & K & T).
+    exists b'. split; [exact Hb'|]. apply (vrep_kind CL st sp i b b' v); [congruence|congruence|exact V].
+Qed.
+Lemma bind_length : forall (xs : list ident) (vs : list value) (e' : env), bind xs vs = Some e' -> List.length xs = List.length vs.
+Proof.
+  induction xs as [|x xs IH]; intros [|v vs] e' H; cbn [bind] in H; try discriminate; [reflexivity|].
+  destruct (bind xs vs) eqn:B; [|discriminate]. cbn. f_equal. eauto.
+Qed.
+
+
+
+Lemma lin_nodup S c s : lin_check S c s = true -> NoDup (ids c).
+Proof. intros H. destruct s; cbn [lin_check] in H; apply andb_true_iff in H as [H _]; now apply nodupb_NoDup. Qed.
